@@ -13,6 +13,11 @@ def cfg : Cfg :=
     checkBeforeSleep := Gen.C15.checkBeforeSleep
     deadlineGe := Gen.C15.deadlineGe
     validateNonNeg := Gen.C15.validateNonNeg
-    sliceN := Gen.C15.sliceNum }
+    sliceN := Gen.C15.sliceNum
+    pidCheck := Gen.C15.pidCheck
+    cbCheck := Gen.C15.cbCheck
+    popenRcFirst := Gen.C15.popenRcFirst
+    popenStoresRc := Gen.C15.popenStoresRc
+    popenValidateFirst := Gen.C15.popenValidateFirst }
 
 end Psutil.C15
